@@ -191,3 +191,108 @@ HARNESSES = [
     _h("c08_mint_burn", h_mint_burn, "1 mint + 1 burn on distinct policies; policy byte symbolic"),
     _h("c08_mint3", h_mint3, "3 mints on distinct policies; policy byte symbolic: all 6 orders", tier="thorough"),
 ]
+
+
+# ---- withdrawals and multi-UTxO inputs ------------------------------------------------------
+
+def reward_account(b):
+    return [0xE0] + [b] * 28          # testnet stake-key reward account
+
+
+def h_withdrawal(ctx, tier, seed):
+    """a withdrawal block with a redeemer: the redeemer is emitted with tag Reward at the rank
+    of its reward account"""
+    eng = ctx.eng; T = TIR(eng)
+    bs = [ctx.sym_int("account_byte%d" % i, "u8") for i in range(2)]
+    eng.assume(bs[0] != bs[1])
+    adhoc = []
+    for i in range(2):
+        m = MapM("HashMap", [[StrM("credential", True), True, T.address(reward_account(bs[i]))],
+                             [StrM("amount", True), True, T.num(1000 + i)],
+                             [StrM("redeemer", True), True, T.num(300 + i)]])
+        adhoc.append(T.st("AdHocDirective", name=StrM("withdrawal", True), data=m))
+    tx = mk_tx(T, adhoc=adhoc)
+    try:
+        body = models.deref(eng.call_fn(eng.find(short="compile_tx_body"), [ref_to_value(tx), network(eng)]))
+        if body.variant != "Ok":
+            ctx.violation("a constant template with well-formed withdrawals does not compile", shape="body rejected")
+            return
+        red = eng.call_fn(eng.find(short="compile_redeemers"), [ref_to_value(tx), ref_to_value(body.fields[0]), network(eng)])
+    except Panic as p:
+        eng.stats.panic_paths += 1
+        ctx.violation("redeemer compilation panicked: %s" % p.kind, site=p.site)
+        return
+    # the body must carry both withdrawals (otherwise the directive name is not the one the body honours)
+    names = eng.tdef("TransactionBody", "struct")[1][2]
+    wd = models.deref(models.deref(body.fields[0]).fields[names.index("withdrawals")])
+    ctx.require(wd.variant == "Some", "the body carries the withdrawals", shape="withdrawals missing from the body")
+    got = redeemer_map(ctx, red)
+    ctx.require(got is not None, "redeemers compile for well-formed withdrawals", shape="redeemers rejected")
+    if got is None:
+        return
+    items = []
+    for i in range(2):
+        j = 1 - i
+        rank = z3.If(z3.ULT(bs[j], bs[i]), z3.BitVecVal(1, 64), z3.BitVecVal(0, 64))
+        items.append((rank, 300 + i))
+    expect_entries(ctx, got, "Reward", items, "withdrawal")
+
+
+def h_directive_name(ctx, tier, seed):
+    """the name the front end gives a withdrawal directive is the name both back-end sites filter on"""
+    import mharness
+    lang = mharness.engine_for(["tx3-lang"])
+    body_side = [f for n, f in ctx.eng.fns.items() if n.startswith("compile_withdrawals")]
+    red_side = [f for n, f in ctx.eng.fns.items() if n.startswith("compile_withdrawal_redeemers")]
+    low = [f for n, f in lang.fns.items() if "into_lower" in n and f.impl_span and "cardano.rs" in f.impl_span[0]]
+
+    def literals(fs):
+        out = set()
+        for f in fs:
+            for b in f.blocks.values():
+                for st in b:
+                    out.update(re.findall(r'const "([a-z_]+)"', st))
+        return out
+    import re
+    lowered = {x for x in literals(low) if x.startswith("withdraw")}
+    ctx.require(len(lowered) == 1, "the lowering names withdrawal directives with one literal (found %s)" % sorted(lowered))
+    name = sorted(lowered)[0] if lowered else "?"
+    ctx.require(name in literals(body_side), "the body assembly filters on the lowered directive name %r" % name, shape="withdrawal directive name mismatch (body)")
+    ctx.require(name in literals(red_side), "the redeemer assembly filters on the lowered directive name %r" % name, shape="withdrawal directive name mismatch (redeemers)")
+
+
+def h_multi_utxo(ctx, tier, seed):
+    """a script input bound to two UTxOs: each of them gets the block's redeemer, at its own rank"""
+    eng = ctx.eng; T = TIR(eng)
+    bs = [ctx.sym_int("txid_byte%d" % i, "u8") for i in range(2)]
+    eng.assume(bs[0] != bs[1])
+    utxos = []
+    for i in range(2):
+        u = T.st("Utxo", ref=utxo_ref(T, txid(bs[i]), 0), address=VecM([0x60] + [1] * 28),
+                 assets=Agg("CanonicalAssets", None, 0, [MapM("HashMap")]), datum=none(), script=none())
+        utxos.append([u, True, unit()])
+    inp = T.st("Input", name=StrM("locked", True), utxos=T.v("Expression", "UtxoSet", MapM("HashSet", utxos)), redeemer=T.num(400))
+    tx = mk_tx(T, inputs=[inp])
+    try:
+        body = models.deref(eng.call_fn(eng.find(short="compile_tx_body"), [ref_to_value(tx), network(eng)]))
+        if body.variant != "Ok":
+            ctx.violation("a constant template with a 2-UTxO input does not compile", shape="body rejected")
+            return
+        red = eng.call_fn(eng.find(short="compile_redeemers"), [ref_to_value(tx), ref_to_value(body.fields[0]), network(eng)])
+    except Panic as p:
+        eng.stats.panic_paths += 1
+        ctx.violation("redeemer compilation panicked: %s" % p.kind, site=p.site)
+        return
+    got = redeemer_map(ctx, red)
+    if got is None:
+        ctx.violation("redeemers rejected for a 2-UTxO input", shape="redeemers rejected")
+        return
+    items = [(z3.If(z3.ULT(bs[1 - i], bs[i]), z3.BitVecVal(1, 64), z3.BitVecVal(0, 64)), 400) for i in range(2)]
+    expect_entries(ctx, got, "Spend", items, "multi-UTxO spend")
+
+
+HARNESSES += [
+    _h("c08_withdrawal", h_withdrawal, "2 withdrawals with redeemers; reward-account byte symbolic: both orders"),
+    _h("c08_directive_name", h_directive_name, "string literals of the MIR of the withdrawal lowering (tx3-lang) vs. compile_withdrawals / compile_withdrawal_redeemers (tx3-cardano)", crates=["tx3-cardano", "tx3-tir"]),
+    _h("c08_multi_utxo", h_multi_utxo, "1 script input bound to 2 UTxOs; txid byte symbolic; hash-set iteration order: all", map_order="all"),
+]
